@@ -273,6 +273,26 @@ def cases(rng, tier, seedfiles, popts_all, popts_default, boundaries):
         for data in fs:
             yield Case("auto", [0, G.hx(data)], True, "auto:utf8-handwritten")
             yield Case("auto", [1, G.hx(data)], True, "auto:utf8-handwritten")
+    # 3b. Nexus FORMAT symbols (GAP / MISSING / MATCHCHAR) that are not one ASCII byte, used equally often in every row, with
+    # NCHAR declared as the byte length of the rows as the lexer holds them (also as the raw byte length and as the rune
+    # count): a symbol validated by rune count and replaced after the length test would shorten every row
+    for _ in range(40 if not thorough else 600):
+        t, c = rng.choice(ALL_CHUNKS)
+        key = rng.choice([b"gap", b"missing", b"matchchar", b"GAP", b"MiSsInG"])
+        n = rng.randint(1, 3)
+        k = rng.randint(1, 3)
+        rows = []
+        for i in range(n):
+            cells = [rng.choice([b"A", b"C", b"G", b"T"]) for _ in range(rng.randint(2, 5) if i == 0 else len(rows[0][1]) - k)] if i == 0 else \
+                    [rng.choice([b"A", b"C", b"G", b"T"]) for _ in range(len(rows[0][1]) - k)]
+            for _ in range(k):
+                cells.insert(rng.randrange(len(cells) + 1) if not (key.lower() == b"matchchar" and i == 0) else len(cells), c)
+            rows.append((b"s%d" % i, cells))
+        wl = len(written(b"".join(rows[0][1])))
+        nchar = rng.choice([wl, wl, wl, len(b"".join(rows[0][1])), len(rows[0][1])])
+        data = (b"#NEXUS\nbegin data;\ndimensions ntax=%d nchar=%d;\nformat datatype=dna " % (n, nchar) + key + b"=" + c + b";\nmatrix\n" +
+                b"".join(nm + b" " + b"".join(cells) + b"\n" for nm, cells in rows) + b";\nend;\n")
+        yield Case("parse", ["nexus", popts_default("nexus", 0), G.hx(data)], True, "nexus:utf8-format-symbol-%s" % t)
     # 4. partition strings
     for s in [b"M,p\xc3\xa9=1-3", b"M\xff,p=1-3", b"M,p=1-\xc3\xa9", b"M,p=1\xc2\xa0-3", b"M,p=1-3\xc2\x85N,q=4-5", b"\xef\xbb\xbfM,p=1-3", b"M,p=1-3/\xff",
               b"M,p=\xd9\xa1-3", b"M,p=1-3\xc3", b"M,p=1-3\n\xe2\x82", b"M,p\xc3\xa9=1-3\nM,p\xc3\xa9=4-5\n", b"M,p\xff=1-3\nM,p\xef\xbf\xbd=4-5\n"]:
